@@ -137,7 +137,7 @@ theorem Line3_closestPointToLine (tmax : α) (l1 l2 : Line3 α) (hu1 : dot l1.di
     simp only [Gen.Line3.closestPointToLine, cplParam, dot, sub, lineAt]
     split_ifs with h1 h2 h3 h4 h5 h6 h7 h8 h9
     all_goals first
-      | (left; refine ⟨rfl, ?_⟩
+      | (left; refine ⟨by ac_rfl_nf, ?_⟩
          first
           | (right; rw [abs_of_nonneg (by linarith)]; linarith)
           | (right; rw [abs_of_neg (by linarith)]; linarith)
@@ -194,10 +194,14 @@ theorem closestPoints_cases (tmax : α) (l1 l2 : Line3 α) :
       (tmax * |cpDen l1 l2| ≤ |cpNum1 l1 l2| ∨ tmax * |cpDen l1 l2| ≤ |cpNum2 l1 l2|)) := by
   simp only [Gen.LineAlgo.closestPoints, sabs_eq_abs, cpDen, cpNum1, cpNum2, dot, sub, lineAt, zero]
   split_ifs with h1 h2 h3
-  · exact Or.inl ⟨rfl, Or.inl h1⟩
-  · exact Or.inl ⟨rfl, Or.inr ⟨h2, h3⟩⟩
-  · exact Or.inr ⟨rfl, not_lt.mp h1, Or.inr (not_lt.mp h3)⟩
-  · exact Or.inr ⟨rfl, not_lt.mp h1, Or.inl (not_lt.mp h2)⟩
+  · exact Or.inl ⟨by ac_rfl_nf, Or.inl (by ac_exact h1)⟩
+  · exact Or.inl ⟨by ac_rfl_nf, Or.inr ⟨by ac_exact h2, by ac_exact h3⟩⟩
+  · have h1' := not_lt.mp h1
+    have h3' := not_lt.mp h3
+    exact Or.inr ⟨rfl, by ac_exact h1', Or.inr (by ac_exact h3')⟩
+  · have h1' := not_lt.mp h1
+    have h2' := not_lt.mp h2
+    exact Or.inr ⟨rfl, by ac_exact h1', Or.inl (by ac_exact h2')⟩
 
 
 /-- `closestPoints` (unit directions).  `true`: the returned points lie on their lines, the connecting segment is
@@ -581,17 +585,17 @@ theorem Plane3_mulM44_cases (tmin : α) (sqrt : α → α) (pl : Plane3 α) (m :
   · by_cases c2 : dot (cross ⟨0, 1, 0⟩ pl.normal) (cross ⟨0, 1, 0⟩ pl.normal) < dot (cross ⟨0, 0, 1⟩ pl.normal) (cross ⟨0, 0, 1⟩ pl.normal)
     · refine ⟨cross ⟨0, 0, 1⟩ pl.normal, Or.inr (Or.inr rfl), by linarith, by linarith, le_refl _, ?_⟩
       simp only [dot, cross] at c1 c2
-      simp only [Gen.Plane3.mulM44, planeVia, dot, cross, mulM44, add, sub, smul, if_pos c1, if_pos c2]
+      (simp only [Gen.Plane3.mulM44, planeVia, dot, cross, mulM44, add, sub, smul, if_pos c1, if_pos c2]) <;> ring_nf
     · refine ⟨cross ⟨0, 1, 0⟩ pl.normal, Or.inr (Or.inl rfl), by linarith, le_refl _, by linarith, ?_⟩
       simp only [dot, cross] at c1 c2
-      simp only [Gen.Plane3.mulM44, planeVia, dot, cross, mulM44, add, sub, smul, if_pos c1, if_neg c2]
+      (simp only [Gen.Plane3.mulM44, planeVia, dot, cross, mulM44, add, sub, smul, if_pos c1, if_neg c2]) <;> ring_nf
   · by_cases c3 : dot (cross ⟨1, 0, 0⟩ pl.normal) (cross ⟨1, 0, 0⟩ pl.normal) < dot (cross ⟨0, 0, 1⟩ pl.normal) (cross ⟨0, 0, 1⟩ pl.normal)
     · refine ⟨cross ⟨0, 0, 1⟩ pl.normal, Or.inr (Or.inr rfl), by linarith, by linarith, le_refl _, ?_⟩
       simp only [dot, cross] at c1 c3
-      simp only [Gen.Plane3.mulM44, planeVia, dot, cross, mulM44, add, sub, smul, if_neg c1, if_pos c3]
+      (simp only [Gen.Plane3.mulM44, planeVia, dot, cross, mulM44, add, sub, smul, if_neg c1, if_pos c3]) <;> ring_nf
     · refine ⟨cross ⟨1, 0, 0⟩ pl.normal, Or.inl rfl, le_refl _, by linarith, by linarith, ?_⟩
       simp only [dot, cross] at c1 c3
-      simp only [Gen.Plane3.mulM44, planeVia, dot, cross, mulM44, add, sub, smul, if_neg c1, if_neg c3]
+      (simp only [Gen.Plane3.mulM44, planeVia, dot, cross, mulM44, add, sub, smul, if_neg c1, if_neg c3]) <;> ring_nf
 
 /-- `plane * M` for a plane with unit normal and a non-singular AFFINE `M` (last column `(0,0,0,1)ᵀ`): the result has a
 unit normal and the signed distance of every transformed point is a POSITIVE multiple `κ` of `det(M₃ₓ₃)` times the
@@ -697,7 +701,7 @@ theorem Sphere3_intersectT (sqrt : α → α) (hsqrt : SqrtSpec sqrt) (s : Spher
   fun_arg_intro sqrt D hD
   have hDs : D = (2 * dot l.dir (sub l.pos s.center)) * (2 * dot l.dir (sub l.pos s.center))
       - 4 * (dot (sub l.pos s.center) (sub l.pos s.center) - s.radius * s.radius) := by
-    rw [← hD]; simp only [dot, sub]; ring
+    rw [← hD]; (simp only [dot, sub]) <;> ring
   by_cases hd : D < 0
   · rw [if_pos hd] at hres
     subst hres
